@@ -2,6 +2,8 @@ package main
 
 import (
 	"fmt"
+	"go/token"
+	"go/types"
 	"os"
 	"sort"
 	"strings"
@@ -228,4 +230,60 @@ func init() {
 		}
 		loopProgressRule(c, r, "C07.7", fns, 100)
 	})
+}
+
+// ---- narrow arithmetic on the read path (C07.8) ----
+//
+// A sum, difference or product computed in an 8- or 16-bit unsigned type wraps. On the read path the operands are sizes and
+// counts taken from the file, so a length test written as len(data) < int(4+size) with a 16-bit size passes for size = 0xFFFC and
+// the slice behind it panics. Every ADD/SUB/MUL/SHL whose result type is uint8 or uint16 and whose operand ranges do not keep
+// the result inside the type is counted per function; the count is frozen (baselines/C07.8.json) and only growth is reported.
+func narrowWrapRule(c *Ctx, r *Result, rule string) {
+	readers := c.readerSet(r)
+	per := map[string][]undecidedItem{}
+	n := 0
+	for fn := range readers {
+		if fn.Blocks == nil {
+			continue
+		}
+		var fb *FB
+		instrs(fn, func(in ssa.Instruction) {
+			bo, ok := in.(*ssa.BinOp)
+			if !ok {
+				return
+			}
+			switch bo.Op {
+			case token.ADD, token.SUB, token.MUL, token.SHL:
+			default:
+				return
+			}
+			bt, ok := bo.Type().Underlying().(*types.Basic)
+			if !ok || (bt.Kind() != types.Uint8 && bt.Kind() != types.Uint16) {
+				return
+			}
+			_, kx := bo.X.(*ssa.Const)
+			_, ky := bo.Y.(*ssa.Const)
+			if kx && ky {
+				return
+			}
+			if fb == nil {
+				fb = c.FB(fn)
+			}
+			n++
+			if fb.narrowOpFits(bo) {
+				return
+			}
+			per[c.Name(fn)] = append(per[c.Name(fn)], undecidedItem{c.InstrPos(bo), "the " + bt.Name() + " operation " + bo.Op.String() + " is not shown to stay inside the type (it wraps)"})
+		})
+	}
+	if n < 10 {
+		r.Shortfall(c, rule, fmt.Sprintf("%s: only %d narrow operations examined on the read path", rule, n))
+	}
+	r.ApplyBaseline(verifDirGlobal, rule, "possibly-wrapping-narrow-operation", per)
+}
+
+func init() {
+	reg := registry["C07"]
+	reg.Meta.Rules["C07.8"] = "sizes from the file are not added up in 8 or 16 bits: every ADD/SUB/MUL/SHL on the read path whose result type is uint8 or uint16 stays inside the type by the ranges of its operands; the operations that are not decided are frozen per function and only growth is reported (len(data) < int(4+size) with a 16-bit size passes for 0xFFFC and the slice behind it panics)"
+	reg.Rules = append(reg.Rules, func(c *Ctx, r *Result) { narrowWrapRule(c, r, "C07.8") })
 }
